@@ -1,11 +1,10 @@
-SPECIFICATION LiveSpec
+SPECIFICATION ASpec
 CONSTANTS
   ADDRS = {1, 2, 3}
   SELF = 9
-  LL = 1
-  BUDGET = 3
+  LL = 2
+  BUDGET = 6
   VARIANT = "fixed"
   IGNORE = {}
-INVARIANT TypeOK
+INVARIANT AInv
 CHECK_DEADLOCK FALSE
-PROPERTY EventuallyExact
